@@ -179,9 +179,21 @@ def names_body(ctx, case):
         if sim.calls != sim2.calls:
             raise Violation(f"{spelled!r}: different URL on the second load")
         # 3. cached: served without network
-        out3, sim3 = load_remote(spelled, unpack, True, payload, env)
-        if isinstance(out3, Exception) or sim3.calls:
-            raise Violation(f"{spelled!r}: cached dataset not served from the cache ({sim3.calls}, {out3!r})")
+        # (what the first, downloading request asked for must not shape what later requests get: both flag values)
+        for flag in (unpack, not unpack, unpack):
+            out3, sim3 = load_remote(spelled, flag, True, payload, env)
+            if isinstance(out3, Exception) or sim3.calls:
+                raise Violation(f"{spelled!r}: cached dataset not served from the cache ({sim3.calls}, {out3!r})")
+            if flag and not (isinstance(out3, tuple) and len(out3) == 2):
+                raise Violation(f"{spelled!r} from the cache: unpack flag did not yield two columns")
+            got3 = np.column_stack(out3) if flag else out3
+            if not (isinstance(got3, np.ndarray) and got3.shape == want.shape and np.array_equal(got3, want)):
+                raise Violation(f"{spelled!r}: served from the cache with unpack_dataset_columns={flag} after a first "
+                                f"load with unpack_dataset_columns={unpack}: shape "
+                                f"{getattr(got3, 'shape', None)} / content differs from the downloaded "
+                                f"{want.shape} data")
+        if len(rs.tree(env.data)) != 1:
+            raise Violation(f"{spelled!r}: cache hits changed the cache files: {rs.tree(env.data)}")
     ctx.record(case, ["remote:" + case["table"], "variant:" + case["variant"], f"unpack={unpack}"], True)
 
 
